@@ -215,6 +215,13 @@ func sxgMut(args []string) error {
 			mem("reqh empty value first", func(x *sxg.Exchange) {
 				x.RequestHeaders["Accept"] = append([]string{""}, x.RequestHeaders["Accept"]...)
 			})
+			// white space inside a signed value respelled (line folding, tabs, doubled spaces): a different value
+			for _, ws := range []string{"\r\n ", "\r\n\t", "\t", "  ", "\n "} {
+				ws := ws
+				mem("resph value white space respelled", func(x *sxg.Exchange) {
+					x.ResponseHeaders.Set("Content-Security-Policy", strings.Replace(x.ResponseHeaders.Get("Content-Security-Policy"), " ", ws, 1))
+				})
+			}
 			mem("resph new", func(x *sxg.Exchange) { x.ResponseHeaders.Add("X-New", "v") })
 			// added headers whose NAMES the format treats specially elsewhere: they are response headers like any other here
 			for _, hn := range []string{"Signature", "signature", "Digest2", ":status", "Content-Encoding2", "Link"} {
